@@ -336,7 +336,7 @@ package cache
 //@   nopanic
 //@   ghost stable specFileInv(c) && c.janitor != nil && c.maxCacheSize.val != nil && c.byteSize.val.v < 4611686018427387904
 //@   requires specFileInv(c) && c.janitor != nil && c.maxCacheSize.val != nil && c.byteSize.val.v < 4611686018427387904
-//@   ensures [C12,C13] specFileInv(c)
+//@   ensures [C12,C13,C01] specFileInv(c)
 //@   ensures [C01,C09] result1 == nil ==> in(c.entriesMetadata, key) && fscontent(specFilePath(c, keyid(key))) == old(readall(data)) && c.entriesMetadata[key].Size == old(readlen(data)) && c.entriesMetadata[key].Expires == expires && result0 != nil && result0.Metadata == c.entriesMetadata[key] && handlecontent(result0.Data) == old(readall(data))
 //@   ensures [C01] forall h int :: old(allocated(h)) && old(handleinode(h)) != 0 ==> handleinode(h) == old(handleinode(h)) && icontent(handleinode(h)) == old(icontent(handleinode(h))) && isize(handleinode(h)) == old(isize(handleinode(h)))
 //@   ensures [C12] old(mbytes == c.byteSize.val.v) ==> mbytes == c.byteSize.val.v
@@ -433,11 +433,11 @@ package cache
 
 // The limit listeners follow the value they are told (not whatever the configuration reads as
 // at that moment: a staged value is announced before it is committed).
-//@ props C19 C16 C12
+//@ props C19 C16 C12 C13
 //@ func NewFileCache$1
 //@   nopanic
 //@   requires c != nil && c.maxCacheSize.val != nil && c.byteSize.val != nil && c.byteSize.val != c.maxCacheSize.val      // two cells, made by the constructor
-//@   ensures [C19] c.maxCacheSize.val.v == newSize
+//@   ensures [C19,C13] c.maxCacheSize.val.v == newSize
 //@   ensures [C12] c.byteSize.val.v == old(c.byteSize.val.v)
 
 // The memory-budget listener computes and publishes the new cap under the cache's lock
@@ -449,11 +449,11 @@ package cache
 //@   requires c != nil
 //@   ensures [C19] sysMem.Total < 1125899906842624 && newPercent >= 0 && newPercent <= 100 ==> c.memoryCap == (sysMem.Total * newPercent) / 100      // every budget verify() accepts, 0 included
 
-//@ props C19 C16 C12
+//@ props C19 C16 C12 C13
 //@ func NewMemoryCache$1
 //@   nopanic
 //@   requires c != nil && c.maxCacheSize.val != nil && c.byteSize.val != nil && c.byteSize.val != c.maxCacheSize.val      // two cells, made by the constructor
-//@   ensures [C19] c.maxCacheSize.val.v == newSize
+//@   ensures [C19,C13] c.maxCacheSize.val.v == newSize
 //@   ensures [C12] c.byteSize.val.v == old(c.byteSize.val.v)
 
 // A new file cache starts from a cleared directory with an empty record and a zero
@@ -512,6 +512,17 @@ package cache
 //@   nopanic
 //@   requires specFileInv(c)
 
+// The entry count the janitor asks for is read under the index lock.
+//@ props C15 C16
+//@ func NewMemoryCache$6
+//@   nopanic
+//@   requires c != nil && c.entries != nil
+
+//@ props C15 C16
+//@ func NewFileCache$4
+//@   nopanic
+//@   requires c != nil && c.entriesMetadata != nil
+
 //@ props C12 C16
 //@ func NewMemoryCache$5
 //@   nopanic
@@ -554,11 +565,11 @@ package cache
 // The interval listener only hands the new interval to the janitor goroutine - every one of
 // them: each call sends exactly once, and what it sends is the interval it was told (a change
 // that is dropped while an older one waits in the channel would leave the janitor on a stale interval).
-//@ props C15 C19 C16
+//@ props C15 C19 C16 C13
 //@ func newCacheJanitor$1
 //@   nopanic
 //@   requires j != nil
-//@   ensures [C19] chansends(j.intervalChanged) == old(chansends(j.intervalChanged)) + 1 && chanlast(j.intervalChanged) == newInterval
+//@   ensures [C19,C13] chansends(j.intervalChanged) == old(chansends(j.intervalChanged)) + 1 && chanlast(j.intervalChanged) == newInterval
 
 // The janitor goroutine: every tick runs a cleanup cycle; a changed interval
 // re-arms the ticker with the NEW interval.
